@@ -200,6 +200,27 @@ pub fn run(cfg: &Cfg, rep: &mut Report) {
         expect_class(ctx, "enum from unknown mnemonic", "not-in-allowed-set",
             scpi_contrib::scpi1999::NumericValueQuery::try_from(Token::CharacterProgramData(b"POTATO")).err().map(|e| e.get_code()), false);
         {
+            // derived enums: a character datum selecting no variant is "not in the allowed set" (value fault) whatever it
+            // looks like - a variant's stem with a suffix no variant carries, a partial long form, another word; another
+            // element kind is a type fault
+            use crate::props::enums_corpus::CORPUS;
+            let e = &CORPUS[rng.usize(CORPUS.len())];
+            let m = e.mnemonics[rng.usize(e.mnemonics.len())];
+            let mut cands = Vec::new();
+            crate::props::c03::candidates(rng, m, &mut cands);
+            for c in cands.iter().filter(|c| !c.is_empty() && c.len() <= 12) {
+                if e.mnemonics.iter().all(|d| crate::refm::mnemonic::ref_match(d, c) == Some(false)) {
+                    let r = (e.try_from_token)(Token::CharacterProgramData(c));
+                    let shape = if c.last().map_or(false, |x| x.is_ascii_digit()) { "with-suffix" } else { "no-suffix" };
+                    expect_class(ctx, &format!("derived enum from non-matching character datum ({})", shape), "not-in-allowed-set", r.err().map(|x| x.get_code()), false);
+                }
+            }
+            let r = (e.try_from_token)(Token::StringProgramData(m));
+            expect_class(ctx, "derived enum from string", "wrong-element-type", r.err().map(|x| x.get_code()), true);
+            let r = (e.try_from_token)(Token::DecimalNumericProgramData(b"1"));
+            expect_class(ctx, "derived enum from decimal", "wrong-element-type", r.err().map(|x| x.get_code()), true);
+        }
+        {
             use scpi::units::uom::si::f32::ElectricPotential;
             let r: Result<ElectricPotential, Error> = ElectricPotential::try_from(Token::DecimalNumericSuffixProgramData(b"1", b"HZ"));
             expect_class(ctx, "voltage with suffix HZ", "not-in-allowed-set", r.err().map(|e| e.get_code()), false);
